@@ -179,7 +179,8 @@ static inline SyntaxKind recognize5(const char* s, const ParseOptions& opts)
         if (s[1] == '_') {
             if (s[2] == 'a') {
                 if (s[3] == 's') {
-                    if (s[4] == 'm') {
+                    if (s[4] == 'm'
+                            && opts.languageExtensions().isEnabled_extGNU_AlternateKeywords()) {
                         return SyntaxKind::KeywordAlias___asm;
                     }
                 }
@@ -421,7 +422,8 @@ static inline SyntaxKind recognize7(const char* s, const ParseOptions& opts)
                 if (s[3] == 's') {
                     if (s[4] == 'm') {
                         if (s[5] == '_') {
-                            if (s[6] == '_') {
+                            if (s[6] == '_'
+                                    && opts.languageExtensions().isEnabled_extGNU_AlternateKeywords()) {
                                 return SyntaxKind::Keyword_ExtGNU___asm__;
                             }
                         }
@@ -432,7 +434,8 @@ static inline SyntaxKind recognize7(const char* s, const ParseOptions& opts)
                 if (s[3] == 'o') {
                     if (s[4] == 'n') {
                         if (s[5] == 's') {
-                            if (s[6] == 't') {
+                            if (s[6] == 't'
+                                    && opts.languageExtensions().isEnabled_extGNU_AlternateKeywords()) {
                                 return SyntaxKind::KeywordAlias___const;
                             }
                         }
@@ -877,7 +880,8 @@ static inline SyntaxKind recognize9(const char* s, const ParseOptions& opts)
                         if (s[5] == 's') {
                             if (s[6] == 't') {
                                 if (s[7] == '_') {
-                                    if (s[8] == '_') {
+                                    if (s[8] == '_'
+                                            && opts.languageExtensions().isEnabled_extGNU_AlternateKeywords()) {
                                         return SyntaxKind::KeywordAlias___const__;
                                     }
                                 }
@@ -957,7 +961,8 @@ static inline SyntaxKind recognize10(const char* s, const ParseOptions& opts)
                             if (s[6] == 'n') {
                                 if (s[7] == 'e') {
                                     if (s[8] == '_') {
-                                        if (s[9] == '_') {
+                                        if (s[9] == '_'
+                                                && opts.languageExtensions().isEnabled_extGNU_AlternateKeywords()) {
                                             return SyntaxKind::KeywordAlias___inline__;
                                         }
                                     }
@@ -992,7 +997,8 @@ static inline SyntaxKind recognize10(const char* s, const ParseOptions& opts)
                             if (s[6] == 'r') {
                                 if (s[7] == 'i') {
                                     if (s[8] == 'c') {
-                                        if (s[9] == 't') {
+                                        if (s[9] == 't'
+                                                && opts.languageExtensions().isEnabled_extGNU_AlternateKeywords()) {
                                             return SyntaxKind::KeywordAlias___restrict;
                                         }
                                     }
@@ -1009,7 +1015,8 @@ static inline SyntaxKind recognize10(const char* s, const ParseOptions& opts)
                             if (s[6] == 'o') {
                                 if (s[7] == 'f') {
                                     if (s[8] == '_') {
-                                        if (s[9] == '_') {
+                                        if (s[9] == '_'
+                                                && opts.languageExtensions().isEnabled_extGNU_AlternateKeywords()) {
                                             return SyntaxKind::Keyword_ExtGNU___typeof__;
                                         }
                                     }
@@ -1044,7 +1051,8 @@ static inline SyntaxKind recognize10(const char* s, const ParseOptions& opts)
                             if (s[6] == 't') {
                                 if (s[7] == 'i') {
                                     if (s[8] == 'l') {
-                                        if (s[9] == 'e') {
+                                        if (s[9] == 'e'
+                                                && opts.languageExtensions().isEnabled_extGNU_AlternateKeywords()) {
                                             return SyntaxKind::KeywordAlias___volatile;
                                         }
                                     }
@@ -1071,7 +1079,8 @@ static inline SyntaxKind recognize11(const char* s, const ParseOptions& opts)
                                 if (s[7] == 'b') {
                                     if (s[8] == 'u') {
                                         if (s[9] == 't') {
-                                            if (s[10] == 'e') {
+                                            if (s[10] == 'e'
+                                                    && opts.languageExtensions().isEnabled_extGNU_AlternateKeywords()) {
                                                 return SyntaxKind::KeywordAlias___attribute;
                                             }
                                         }
@@ -1088,7 +1097,8 @@ static inline SyntaxKind recognize11(const char* s, const ParseOptions& opts)
                                 if (s[7] == 'o') {
                                     if (s[8] == 'f') {
                                         if (s[9] == '_') {
-                                            if (s[10] == '_') {
+                                            if (s[10] == '_'
+                                                    && opts.languageExtensions().isEnabled_extGNU_AlternateKeywords()) {
                                                 return SyntaxKind::KeywordAlias___alignof__;
                                             }
                                         }
